@@ -201,6 +201,13 @@ class PathEnum:
     def const_of(self, e, p, fr):
         if isinstance(e, ast.Constant):
             return e.value
+        if isinstance(e, ast.Tuple) and e.elts and all(isinstance(x, (ast.Constant, ast.Name, ast.Attribute)) for x in e.elts):
+            return e            # a row of a constant table: the literal itself is the value (truthy; indexable below)
+        if isinstance(e, ast.Subscript) and isinstance(e.slice, ast.Constant) and isinstance(e.slice.value, int) and not isinstance(e.slice.value, bool):
+            base = self.const_of(e.value, p, fr) if isinstance(e.value, ast.Name) else _UNKNOWN
+            if isinstance(base, ast.Tuple) and -len(base.elts) <= e.slice.value < len(base.elts):
+                return self.const_of(base.elts[e.slice.value], p, fr)
+            return _UNKNOWN
         if isinstance(e, ast.Name):
             f = fr
             while True:
@@ -525,7 +532,7 @@ class PathEnum:
             if v is _UNKNOWN and rfr is not fr and isinstance(retnode, ast.Attribute) and getattr(self, 'consteval', None) is not None:
                 # a helper returned a named constant (e.g. an exception code): the caller's `is None` tests on it are decidable
                 v = self.consteval(retnode, rfr)
-            if v is not _UNKNOWN and (v is None or isinstance(v, (bool, int, str, bytes))):
+            if v is not _UNKNOWN and (v is None or isinstance(v, (bool, int, str, bytes, ast.Tuple))):
                 q.env[key] = v
             else:
                 fb = self._fnref(retnode, q, rfr)
@@ -895,6 +902,13 @@ class SelfResolver:
                         if m is not None and call.args and isinstance(call.args[0], ast.Name) and call.args[0].id == 'self':
                             # Base.m(self, ...) : explicit receiver consumes first arg
                             tgt = (m, fr.cls, {'skip_args': 1})
+        elif isinstance(f, ast.Subscript) and isinstance(f.value, ast.Name) and isinstance(f.slice, ast.Constant) and isinstance(f.slice.value, int) \
+                and isinstance(path.env.get((fr.fid, f.value.id)), ast.Tuple) and fr.func is not None:
+            row = path.env[(fr.fid, f.value.id)]
+            if -len(row.elts) <= f.slice.value < len(row.elts) and isinstance(row.elts[f.slice.value], ast.Name):
+                r = self.idx.lookup(fr.func.mod, row.elts[f.slice.value].id)
+                if r and r[0] == 'func':
+                    tgt = (r[1], None, {})
         elif isinstance(f, ast.Name):
             key = (fr.fid, f.id)
             dfr = fr
